@@ -271,6 +271,18 @@ let () =
        | Ok b -> print_string ("= ok " ^ hex_of_bytes b ^ "\n")
        | Err -> print_string "= err\n"
        | Unm -> print_string "= unm\n")
+    | ["CTXT"; h] ->
+      (* SOURCE TEXT (hex of its utf-8 bytes) -> Tokenizer.get_symbols and Tokenizer.compile_text *)
+      let txt = coq_of_string (if h = "-" then "" else ascii_of_bytes (bytes_of_hex h)) in
+      let hexs s = let r = string_of_coq s in if r = "" then "-" else
+        String.concat "" (List.map (fun c -> Printf.sprintf "%02x" (Char.code c)) (List.of_seq (String.to_seq r))) in
+      let sy = (match get_symbols txt with
+        | Ok l -> "ok:" ^ String.concat "," (List.map hexs l)
+        | Err -> "err" | Unm -> "unm") in
+      let cp = (match compile_text fl2_oracle txt with
+        | Ok b -> "ok:" ^ hex_of_bytes b
+        | Err -> "err" | Unm -> "unm") in
+      print_string ("= " ^ sy ^ " " ^ cp ^ "\n")
     | ["FLT"; h] ->
       let pos p = str_of_z (Zpos p) in
       let sg s = if s then "-" else "+" in
